@@ -97,65 +97,162 @@ Proof.
   - apply IH; lia.
 Qed.
 
+Fixpoint segs_discb (ids : list Z) (first : bool) (segs : list seg) : bool :=
+  match segs with
+  | [] => true
+  | sg :: tl =>
+      match sg_ts sg with
+      | [] => segs_discb ids first tl
+      | _ => (first && (match ids with [] => false | _ => last ids 0 =? sg_cid sg end) && segs_discb ids false tl)
+             || (forallb (fun c => c <? sg_cid sg) ids && segs_discb (ids ++ [sg_cid sg]) false tl)
+      end
+  end.
+Lemma segs_discb_ok segs : forall ids first, segs_discb ids first segs = true -> segs_disc ids first segs.
+Proof.
+  induction segs as [|sg tl IH]; intros ids first H; [exact I|]. cbn [segs_discb segs_disc] in *.
+  destruct (sg_ts sg); [apply IH; exact H|].
+  apply orb_true_iff in H as [H|H].
+  - left. apply andb_true_iff in H as [H H3]. apply andb_true_iff in H as [H1 H2].
+    split; [destruct first; [reflexivity|discriminate]|]. split; [|apply IH; exact H3].
+    unfold last_id. destruct ids; [discriminate|]. apply Z.eqb_eq in H2. rewrite H2. reflexivity.
+  - right. apply andb_true_iff in H as [H1 H2]. split; [|apply IH; exact H2].
+    intros c Hc. rewrite forallb_forall in H1. specialize (H1 c Hc). apply Z.ltb_lt in H1. exact H1.
+Qed.
+Fixpoint hist_discb (ids : list Z) (h : list op) : bool :=
+  match h with
+  | [] => true
+  | HBatch segs :: tl => segs_discb ids true segs && hist_discb (ids_after ids segs) tl
+  | _ :: tl => hist_discb ids tl
+  end.
+Lemma hist_discb_ok h : forall ids, hist_discb ids h = true -> hist_disc ids h.
+Proof.
+  induction h as [|o h IH]; intros ids H; [exact I|]. destruct o; cbn [hist_discb hist_disc] in *; try (apply IH; exact H).
+  apply andb_true_iff in H as [H1 H2]. split; [apply segs_discb_ok; exact H1|apply IH; exact H2].
+Qed.
+Fixpoint nwadb (dropped : bool) (h : list op) : bool :=
+  match h with
+  | [] => true
+  | HDrop :: tl => nwadb true tl
+  | HBatch _ :: tl => negb dropped && nwadb false tl
+  | HSync :: tl => nwadb false tl
+  | HRead _ _ :: tl => nwadb false tl
+  | HServe :: tl => nwadb dropped tl
+  end.
+Lemma nwadb_ok h : forall dropped, nwadb dropped h = true -> nwad dropped h.
+Proof.
+  induction h as [|o h IH]; intros dropped H; [exact I|]. destruct o; cbn [nwadb nwad] in *; try (apply IH; exact H).
+  apply andb_true_iff in H as [H1 H2]. split; [destruct dropped; [discriminate|reflexivity]|apply IH; exact H2].
+Qed.
+
+Lemma hist_smallb_ok h : (Z.of_nat (length (hist_data h)) <=? max_uint32) = true -> hist_small h.
+Proof. unfold hist_small. intros H. apply Z.leb_le in H. exact H. Qed.
+
+(* ---------- the property with the hypotheses under which it is proved (proofs/SelectorRunP.v complete_fixed) ---------- *)
+Definition complete_under_hyps (v : variant) : Prop :=
+  forall hist o1 o2, Forall op_ok hist -> op_ok (HRead o1 o2) ->
+    hist_sorted hist -> hist_disciplined hist -> hist_small hist -> no_write_after_drop hist ->
+    complete_at v (run v hist) o1 o2.
+
+(* all hypotheses of complete_under_hyps, decided for a concrete history *)
+Definition hyps_okb (h : list op) (o1 o2 : option Z) : bool :=
+  forallb op_okb h && op_okb (HRead o1 o2) && sorted_zb (hist_data h) && hist_discb [] h
+  && (Z.of_nat (length (hist_data h)) <=? max_uint32) && nwadb false h.
+
 (* ---------- the refutation witnesses ---------- *)
 Lemma not_complete_by_length v st o1 o2 :
   length (fst (range_read v st o1 o2)) <> length (filter (in_range_opt o1 o2) (read_all st)) -> ~ complete_at v st o1 o2.
 Proof. intros H E. apply H. unfold complete_at in E. rewrite E. reflexivity. Qed.
 
-(* (a) an equal-timestamp run across a sparse-index point; monotone data, explicit bounds *)
+Definition lengths_differ (v : variant) (h : list op) (o1 o2 : option Z) : bool :=
+  negb (Nat.eqb (length (fst (range_read v (run v h) o1 o2))) (length (filter (in_range_opt o1 o2) (read_all (run v h))))).
+
+(* a history that satisfies every hypothesis and on which the RANGE read has the wrong length refutes the statement *)
+Lemma refute_under_hyps v h o1 o2 :
+  hyps_okb h o1 o2 = true -> lengths_differ v h o1 o2 = true -> ~ complete_under_hyps v.
+Proof.
+  unfold hyps_okb. intros Hh Hd H.
+  apply andb_true_iff in Hh as [Hh H6]. apply andb_true_iff in Hh as [Hh H5]. apply andb_true_iff in Hh as [Hh H4].
+  apply andb_true_iff in Hh as [Hh H3]. apply andb_true_iff in Hh as [H1 H2].
+  specialize (H h o1 o2 (hist_okb_ok _ H1) (op_okb_ok _ H2) (sorted_zb_ok _ H3) (hist_discb_ok _ _ H4) (hist_smallb_ok _ H5) (nwadb_ok _ _ H6)).
+  revert H. apply not_complete_by_length. unfold lengths_differ in Hd. apply negb_true_iff in Hd. apply Nat.eqb_neq in Hd. exact Hd.
+Qed.
+
+(* ---- what each of the three repairs bought: without it the statement is false although every hypothesis
+        holds (whatever the two other flags are) ---- *)
+
+(* (a) an equal-timestamp run across a sparse-index point; monotone data, explicit bounds: before the
+       lower-bound repair RANGE ["20":"20"] delivered 1 of 251 events *)
 Definition wit_a : list op := [HBatch [mkseg 1 false (repeat 10 249 ++ [20])]; HBatch [mkseg 1 false (repeat 20 250)]].
-Lemma refuted_equal_run : ~ (forall hist o1 o2, Forall op_ok hist -> op_ok (HRead o1 o2) -> complete_at code_variant (run code_variant hist) o1 o2).
+Lemma refuted_equal_run v : fix_lb v = false -> ~ complete_under_hyps v.
 Proof.
-  intros H. specialize (H wit_a (Some 20) (Some 20)).
-  assert (H1 : Forall op_ok wit_a) by (apply hist_okb_ok; vm_compute; reflexivity).
-  assert (H2 : op_ok (HRead (Some 20) (Some 20))) by (apply op_okb_ok; vm_compute; reflexivity).
-  revert H. generalize (H1, H2). intros _ H. specialize (H H1 H2). revert H.
-  apply not_complete_by_length. vm_compute. discriminate.
+  destruct v as [[] fz fo]; [discriminate|]. intros _.
+  apply (refute_under_hyps _ wit_a (Some 20) (Some 20)); [vm_compute; reflexivity|].
+  destruct fz, fo; vm_compute; reflexivity.
 Qed.
 
+(* (b) a batch whose first timestamp is 0: iwrapper took 0 for "unset" (hull [5,7]) *)
 Definition wit_b : list op := [HBatch [mkseg 1 false [0; 5; 7]]].
-Lemma refuted_zero_first :
-  exists hist o1 o2, Forall op_ok hist /\ op_ok (HRead o1 o2) /\ ~ complete_at code_variant (run code_variant hist) o1 o2.
+Lemma refuted_zero_first v : fix_zero v = false -> ~ complete_under_hyps v.
 Proof.
-  exists wit_b, (Some (-10)), (Some 2). split; [apply hist_okb_ok; vm_compute; reflexivity|].
-  split; [apply op_okb_ok; vm_compute; reflexivity|]. apply not_complete_by_length. vm_compute. discriminate.
+  destruct v as [fl [] fo]; [discriminate|]. intros _.
+  apply (refute_under_hyps _ wit_b (Some (-10)) (Some 2)); [vm_compute; reflexivity|].
+  destruct fl, fo; vm_compute; reflexivity.
 Qed.
 
+(* (d) an omitted lower bound was 0, not "unbounded" *)
 Definition wit_d : list op := [HBatch [mkseg 1 false [-5; -3; 4]]].
-Lemma refuted_open_lower :
-  exists hist o2, Forall op_ok hist /\ op_ok (HRead None o2) /\ ~ complete_at code_variant (run code_variant hist) None o2.
+Lemma refuted_open_lower v : fix_open v = false -> ~ complete_under_hyps v.
 Proof.
-  exists wit_d, (Some 10). split; [apply hist_okb_ok; vm_compute; reflexivity|].
-  split; [apply op_okb_ok; vm_compute; reflexivity|]. apply not_complete_by_length. vm_compute. discriminate.
+  destruct v as [fl fz []]; [discriminate|]. intros _.
+  apply (refute_under_hyps _ wit_d None (Some 10)); [vm_compute; reflexivity|].
+  destruct fl, fz; vm_compute; reflexivity.
 Qed.
 
+(* (e) a rebuilt index over negative timestamps: every segment max started at 0. The witness does not use
+       iwrapper's side of the defect (no timestamp 0, no sign change inside a batch) *)
 Definition wit_e : list op :=
   [HBatch [mkseg 1 false (repeat (-1000) 150 ++ repeat (-900) 150)]; HDrop; HSync; HRead (Some (-950)) (Some (-950)); HServe;
    HBatch [mkseg 1 false (repeat (-500) 10)]; HBatch [mkseg 1 false (repeat (-400) 10)]; HBatch [mkseg 1 false (repeat (-300) 10)]].
-Lemma refuted_rebuild_negative :
-  exists hist o1 o2, Forall op_ok hist /\ op_ok (HRead o1 o2) /\ ~ complete_at code_variant (run code_variant hist) o1 o2.
+Lemma refuted_rebuild_negative v : fix_zero v = false -> ~ complete_under_hyps v.
 Proof.
-  exists wit_e, (Some (-450)), (Some (-400)). split; [apply hist_okb_ok; vm_compute; reflexivity|].
-  split; [apply op_okb_ok; vm_compute; reflexivity|]. apply not_complete_by_length. vm_compute. discriminate.
+  destruct v as [fl [] fo]; [discriminate|]. intros _.
+  apply (refute_under_hyps _ wit_e (Some (-450)) (Some (-400))); [vm_compute; reflexivity|].
+  destruct fl, fo; vm_compute; reflexivity.
 Qed.
 
+(* ---- the two hypotheses that remain are needed by the code as it is (all three repairs in) ---- *)
+
+(* (c) timestamps that are not monotone in stored order; every other hypothesis holds *)
 Definition wit_c : list op :=
   [HBatch [mkseg 1 false (repeat 100 250)]; HBatch [mkseg 1 false [500]]; HBatch [mkseg 1 false (repeat 200 250)]].
-Lemma refuted_nonmonotone : ~ (forall hist o1 o2, Forall op_ok hist -> op_ok (HRead o1 o2) -> complete_at fixed_variant (run fixed_variant hist) o1 o2).
+Lemma refuted_nonmonotone :
+  exists hist o1 o2, Forall op_ok hist /\ op_ok (HRead o1 o2) /\ hist_disciplined hist /\ hist_small hist /\ no_write_after_drop hist /\
+    ~ complete_at fixed_variant (run fixed_variant hist) o1 o2.
 Proof.
-  intros H. specialize (H wit_c (Some 400) (Some 600)).
-  assert (H1 : Forall op_ok wit_c) by (apply hist_okb_ok; vm_compute; reflexivity).
-  assert (H2 : op_ok (HRead (Some 400) (Some 600))) by (apply op_okb_ok; vm_compute; reflexivity).
-  specialize (H H1 H2). revert H. apply not_complete_by_length. vm_compute. discriminate.
+  exists wit_c, (Some 400), (Some 600). split; [apply hist_okb_ok; vm_compute; reflexivity|].
+  split; [apply op_okb_ok; vm_compute; reflexivity|].
+  split; [apply hist_discb_ok; vm_compute; reflexivity|].
+  split; [apply hist_smallb_ok; vm_compute; reflexivity|].
+  split; [apply nwadb_ok; vm_compute; reflexivity|].
+  apply not_complete_by_length. vm_compute. discriminate.
 Qed.
 
+(* (f) monotone timestamps: index lost, then a write before any sync, read before the rebuilder has run;
+       every other hypothesis holds *)
 Definition wit_f : list op := [HBatch [mkseg 1 false (repeat 100 300)]; HDrop; HBatch [mkseg 1 false (repeat 200 10)]].
 Lemma refuted_drop_write :
-  exists hist o1 o2, Forall op_ok hist /\ op_ok (HRead o1 o2) /\ hist_sorted hist /\
+  exists hist o1 o2, Forall op_ok hist /\ op_ok (HRead o1 o2) /\ hist_sorted hist /\ hist_disciplined hist /\ hist_small hist /\
     ~ complete_at fixed_variant (run fixed_variant hist) o1 o2.
 Proof.
   exists wit_f, (Some 100), (Some 150). split; [apply hist_okb_ok; vm_compute; reflexivity|].
   split; [apply op_okb_ok; vm_compute; reflexivity|].
   split; [apply sorted_zb_ok; vm_compute; reflexivity|].
+  split; [apply hist_discb_ok; vm_compute; reflexivity|].
+  split; [apply hist_smallb_ok; vm_compute; reflexivity|].
   apply not_complete_by_length. vm_compute. discriminate.
 Qed.
+
+(* hence the statement without hypotheses is false of the code as it is *)
+Lemma refuted_full :
+  ~ (forall hist o1 o2, Forall op_ok hist -> op_ok (HRead o1 o2) -> complete_at fixed_variant (run fixed_variant hist) o1 o2).
+Proof. intros H. destruct refuted_nonmonotone as (h & o1 & o2 & H1 & H2 & _ & _ & _ & Hn). exact (Hn (H h o1 o2 H1 H2)). Qed.
